@@ -15,7 +15,7 @@ RULE = ('two families. (call) pretty_call / pretty_call_alt invoked with: callab
         'given string); positional count/order and keyword names in the given order; each argument sub-tree == AST of the '
         'argument printed alone; evaluation with a recording callable yields the given (args, kwargs) type-strictly. '
         '(class) generated dataclass / attrs definitions: 0-5 fields, names from the same pool, each with no default / '
-        'default value / default factory (attrs: also takes_self, computed from an earlier field of the instance, with a sibling instance printed first; factories returning nested dataclass/attrs instances), keyword-only flag per field / class-wide (a keyword-only field without default may follow defaulted ones), repr '
+        'default value / default factory (attrs: also takes_self, computed from an earlier field of the instance, with a sibling instance printed first; factories returning nested dataclass/attrs instances), the leading fields optionally declared in a base class, keyword-only flag per field / class-wide (a keyword-only field without default may follow defaulted ones), repr '
         'flag, frozen / slots variants, ClassVar / InitVar pseudo-fields (ClassVar possibly re-assigned after the class was created), '
         ' instance values (incl. nested dataclass/attrs instances, alone or inside lists and '
         'dicts) at or away from the default; sort_dict_keys on and off. Oracle: keyword names == those computed from the definition recipe (declaration order, '
@@ -151,6 +151,15 @@ def fixed_cases():
                            'fields': [{'name': 'retries', 'default': ['val', ['int', 3]], 'repr': True, 'value': v1, 'kw': False},
                                       {'name': 'name', 'default': ['none'], 'repr': True, 'value': ['str', 'x'], 'kw': True},
                                       {'name': 'x', 'default': ['fac', 'seven'], 'repr': True, 'value': v3, 'kw': True}]}
+    for lib in ('dc', 'attrs'):
+        for inh in (1, 2):
+            for v in ('default', ['int', 9]):
+                # fields declared in a base class come first
+                yield {'kind': 'class', 'lib': lib, 'frozen': False, 'slots': False, 'width': 79, 'indent': 4, 'inherit': inh,
+                       'fields': [{'name': 'a', 'default': ['none'], 'repr': True, 'value': ['int', 1]},
+                                  {'name': 'b', 'default': ['val', ['int', 3]], 'repr': True, 'value': v},
+                                  {'name': 'x', 'default': ['fac', 'list'], 'repr': True, 'value': 'default'},
+                                  {'name': 'name', 'default': ['val', ['str', 'n']], 'repr': False, 'value': ['str', 'other']}]}
     for v1 in (['int', 1], ['int', 10], ['list', [['int', 1]]]):
         for v2 in ('default', ['int', 2], ['tuple', [['int', 10], ['int', 1]]]):
             yield {'kind': 'class', 'lib': 'attrs', 'frozen': False, 'slots': False, 'width': 79, 'indent': 4,
@@ -199,6 +208,7 @@ def strategy(tier):
     cls = st.fixed_dictionaries({
         'kind': st.just('class'), 'lib': st.sampled_from(['dc', 'attrs']), 'frozen': st.booleans(), 'slots': st.booleans(),
         'fields': st.lists(field, max_size=5, unique_by=lambda f: f['name']), 'pseudo': pseudo, 'kw_only': st.sampled_from([False, False, False, True]),
+        'inherit': st.sampled_from([0, 0, 1, 2]),
         'width': st.one_of(st.integers(1, 100), st.just(79)), 'indent': st.sampled_from([2, 4]), 'sort': st.booleans()})
     return st.one_of(call_alt, call_plain, cls, cls)
 
@@ -307,7 +317,9 @@ def make_class(case):
     kw_class = bool(case.get('kw_only'))
     fields = _order_fields(case['fields'], kw_class)
     pseudo = case.get('pseudo') or []      # dataclasses only: [kind 'classvar'|'initvar', name, default recipe, changed-to recipe or None]
-    key = json.dumps([case['lib'], case['frozen'], case['slots'], [[f['name'], f['default'], f['repr'], bool(f.get('kw'))] for f in fields], pseudo, kw_class], sort_keys=True)
+    inherit = int(case.get('inherit') or 0)        # the first `inherit` fields are declared in a base class
+    inherit = inherit if 0 < inherit < len(fields) else 0
+    key = json.dumps([case['lib'], case['frozen'], case['slots'], [[f['name'], f['default'], f['repr'], bool(f.get('kw'))] for f in fields], pseudo, kw_class, inherit], sort_keys=True)
     name = 'K' + hashlib.blake2b(key.encode(), digest_size=6).hexdigest()
     cls = getattr(dyn, name, None)
     if cls is not None:
@@ -346,7 +358,12 @@ def make_class(case):
                     changed.append((pname, values.build(chg)))
             else:
                 specs.append((pname, dataclasses.InitVar[object], dataclasses.field(default=values.build(dflt))))
-        cls = dataclasses.make_dataclass(name, specs, frozen=case['frozen'], slots=case['slots'], kw_only=kw_class)
+        if inherit:
+            base = dataclasses.make_dataclass(name + 'Base', specs[:inherit], frozen=case['frozen'], slots=case['slots'], kw_only=kw_class)
+            base.__module__ = 'ppv.dyn'
+            cls = dataclasses.make_dataclass(name, specs[inherit:], bases=(base,), frozen=case['frozen'], slots=case['slots'], kw_only=kw_class)
+        else:
+            cls = dataclasses.make_dataclass(name, specs, frozen=case['frozen'], slots=case['slots'], kw_only=kw_class)
         for pname, val in changed:
             setattr(cls, pname, val)      # e.g. an instance counter or registry bumped after the class was defined
     else:
@@ -371,7 +388,13 @@ def make_class(case):
                 ref = _self_ref(fields, f)
                 fac = (lambda self, ref=ref: (getattr(self, ref), 1)) if ref else (lambda self: 7)
                 attrs[f['name']] = attr.ib(default=attr.Factory(fac, takes_self=True), repr=f['repr'], **kw)
-        cls = attr.make_class(name, attrs, frozen=case['frozen'], slots=case['slots'], kw_only=kw_class)
+        if inherit:
+            names = list(attrs)
+            base = attr.make_class(name + 'Base', {n: attrs[n] for n in names[:inherit]}, frozen=case['frozen'], slots=case['slots'], kw_only=kw_class)
+            base.__module__ = 'ppv.dyn'
+            cls = attr.make_class(name, {n: attrs[n] for n in names[inherit:]}, bases=(base,), frozen=case['frozen'], slots=case['slots'], kw_only=kw_class)
+        else:
+            cls = attr.make_class(name, attrs, frozen=case['frozen'], slots=case['slots'], kw_only=kw_class)
     cls.__module__ = 'ppv.dyn'
     cls.__qualname__ = name
     cls._ppv_defaults = built_defaults
